@@ -82,6 +82,92 @@ theorem or_cell (sqrt : Rat → Rat) (a : Arr) (t : List Arr) (r : Arr) (i : Nat
       rw [this, hv]
       exact ⟨hmem, hge⟩
 
+/-- **FuzzyAnd**: the minimum of the column (mirror image of `or_cell`) -/
+theorem and_cell (sqrt : Rat → Rat) (a : Arr) (t : List Arr) (r : Arr) (i : Nat)
+    (h : exec sqrt .fuzzyAnd (a :: t) = .ok r) (hi : ∀ x ∈ a :: t, i < x.cells.length)
+    (hr : ∀ x ∈ a :: t, ∀ c ∈ x.cells, -1 ≤ c.val ∧ c.val ≤ 1) :
+    ∃ c, r.cells[i]? = some c ∧ c.mask = (column (a :: t) i).any (·.mask) ∧
+      (c.mask = false → c.val ∈ (column (a :: t) i).map (·.val) ∧ ∀ y ∈ (column (a :: t) i).map (·.val), c.val ≤ y) := by
+  simp only [exec, fuzzyClamp] at h
+  cases hq : naryFold (.arg "InFieldNames") ratMin (a :: t) with
+  | error e => rw [hq] at h; simp [Except.map] at h
+  | ok q =>
+    rw [hq] at h
+    simp only [Except.map, Except.ok.injEq] at h
+    subst h
+    obtain ⟨c, h1, h2, h3⟩ := C07.naryFold_cell _ _ a t q i hq hi
+    refine ⟨Cell.insure (-1) 1 c, ?_, ?_, ?_⟩
+    · simp [Arr.insure, Arr.mapCells, h1]
+    · rw [← h2]; unfold Cell.insure; cases c.mask <;> rfl
+    · intro hm
+      have hcm : c.mask = false := by
+        unfold Cell.insure at hm; cases hc : c.mask <;> simp_all
+      have hv := h3 hcm
+      simp only [column, List.map_cons] at hv ⊢
+      have hmem := C07.fold1_min_mem ((a.cells.getD i default).val) ((t.map fun x => x.cells.getD i default).map (·.val))
+      have hge := C07.fold1_min_le ((a.cells.getD i default).val) ((t.map fun x => x.cells.getD i default).map (·.val))
+      have hin : -1 ≤ c.val ∧ c.val ≤ 1 := by
+        rw [hv]
+        rcases List.mem_cons.mp hmem with e | e
+        · rw [e]
+          have := hi a (List.mem_cons_self ..)
+          have hc := hr a (List.mem_cons_self ..) (a.cells.getD i default) (by
+            simp [List.getD, List.getElem?_eq_getElem this])
+          exact hc
+        · rw [List.mem_map] at e
+          obtain ⟨d, hd, e⟩ := e
+          rw [List.mem_map] at hd
+          obtain ⟨x, hx, rfl⟩ := hd
+          rw [← e]
+          have := hi x (List.mem_cons_of_mem _ hx)
+          exact hr x (List.mem_cons_of_mem _ hx) _ (by simp [List.getD, List.getElem?_eq_getElem this])
+      have : (Cell.insure (-1) 1 c).val = c.val := by
+        unfold Cell.insure; simp [hcm, clamp_id hin.1 hin.2]
+      rw [this, hv]
+      exact ⟨hmem, hge⟩
+
+/-- **FuzzyUnion**: each cell is missing iff some input is missing there, and otherwise holds the clamped arithmetic mean of the column
+(the clamp is the identity when the inputs are fuzzy values: see `mean_in_range`). -/
+theorem union_cell (sqrt : Rat → Rat) (a : Arr) (t : List Arr) (r : Arr) (i : Nat)
+    (h : exec sqrt .fuzzyUnion (a :: t) = .ok r) (hi : ∀ x ∈ a :: t, i < x.cells.length) :
+    ∃ c, r.cells[i]? = some c ∧ c.mask = (column (a :: t) i).any (·.mask) ∧
+      (c.mask = false → c.val = clampHiLo (-1) 1 (((column (a :: t) i).map (·.val)).sum / ((a :: t).length : Nat))) := by
+  simp only [exec] at h
+  obtain ⟨_, _, h⟩ := bind_ok h
+  simp only [fuzzyClamp, Except.map, Except.ok.injEq] at h
+  subst h
+  obtain ⟨c, h1, h2, h3⟩ := C07.meanArr_cell a t i hi
+  refine ⟨Cell.insure (-1) 1 c, ?_, ?_, ?_⟩
+  · simp only [Arr.insure, Arr.mapCells, List.getElem?_map] at h1 ⊢
+    rw [h1]; rfl
+  · rw [← h2]; unfold Cell.insure; cases c.mask <;> rfl
+  · intro hm
+    have hcm : c.mask = false := by
+      unfold Cell.insure at hm; cases hc : c.mask <;> simp_all
+    unfold Cell.insure
+    simp only [hcm, Bool.false_eq_true, if_false, h3 hcm]
+
+/-- the mean of values in [-1, 1] lies in [-1, 1]: on fuzzy inputs FuzzyUnion's clamp changes nothing -/
+theorem mean_in_range (x : Rat) (l : List Rat) (h : ∀ y ∈ x :: l, -1 ≤ y ∧ y ≤ 1) :
+    -1 ≤ (x :: l).sum / ((x :: l).length : Nat) ∧ (x :: l).sum / ((x :: l).length : Nat) ≤ 1 := by
+  have hpos : (0 : Rat) < ((x :: l).length : Nat) := by
+    have : 0 < (x :: l).length := by simp
+    exact_mod_cast this
+  have hb : ∀ (m : List Rat), (∀ y ∈ m, -1 ≤ y ∧ y ≤ 1) → -(m.length : Rat) ≤ m.sum ∧ m.sum ≤ (m.length : Rat) := by
+    intro m
+    induction m with
+    | nil => intro _; simp
+    | cons y m ih =>
+      intro hm
+      have h1 := hm y (List.mem_cons_self ..)
+      have h2 := ih (fun z hz => hm z (List.mem_cons_of_mem _ hz))
+      simp only [List.sum_cons, List.length_cons, Nat.cast_add, Nat.cast_one]
+      constructor <;> linarith [h1.1, h1.2, h2.1, h2.2]
+  have := hb (x :: l) h
+  constructor
+  · rw [le_div_iff₀ hpos]; linarith [this.1]
+  · rw [div_le_iff₀ hpos]; linarith [this.2]
+
 /-- **FuzzyNot** negates every present cell and keeps the missing ones (values in range stay in range: no clamping). -/
 theorem not_cells (sqrt : Rat → Rat) (a r : Arr) (h : exec sqrt .fuzzyNot [a] = .ok r)
     (hr : ∀ c ∈ a.cells, -1 ≤ c.val ∧ c.val ≤ 1) :
